@@ -50,6 +50,7 @@ package bluemonday
 //@     invariant[C02] apsRulesOKE(p, elementName, aps)
 
 //@ func (*bluemonday.Policy).sanitize
+//@   closed
 //@   sets lastErr = result
 //@   reveal[C14] wfRegex
 //@   requires wfp(p) && r != nil && w != nil
@@ -173,6 +174,7 @@ package bluemonday
 //@   ensures result ==> rmatch(dataAttribute, val)
 
 //@ func (*bluemonday.Policy).sanitizeStyles
+//@   closed
 //@   reveal[C14] wfRegex
 //@   requires wfp(p) && p.initialized
 //@   modifies nothing
@@ -182,11 +184,14 @@ package bluemonday
 //@   loop 0 "for regex, policies := range p.elsMatchingAndStyles"
 //@     invariant forall k string :: k in sps ==> arr(sps[k]) == nil || allocated(arr(sps[k]))
 //@     invariant[C10] spsFrom(p, elementName, sps)
+//@     invariant[C13] forall r *regexp.Regexp, k string, x bluemonday.stylePolicy :: $visited(r) && rmatch(r, elementName) && styleInPat(p, r, k, x) ==> k in sps && (exists jp int :: 0 <= jp && jp < len(sps[k]) && sps[k][jp] == x)
 //@     after[C10] spsFrom(p, elementName, sps)
 //@   loop 1 "for k, v := range policies"
 //@     invariant forall k string :: k in sps ==> arr(sps[k]) == nil || allocated(arr(sps[k]))
 //@     invariant[C10] spsFrom(p, elementName, sps)
 //@     invariant[C10] rmatch(regex, elementName) && regex in p.elsMatchingAndStyles && policies == p.elsMatchingAndStyles[regex]
+//@     invariant[C13] forall r *regexp.Regexp, k string, x bluemonday.stylePolicy :: $visited0(r) && r != regex && rmatch(r, elementName) && styleInPat(p, r, k, x) ==> k in sps && (exists jp int :: 0 <= jp && jp < len(sps[k]) && sps[k][jp] == x)
+//@     invariant[C13] regex in p.elsMatchingAndStyles && policies == p.elsMatchingAndStyles[regex] && (forall k string, x bluemonday.stylePolicy :: $visited(k) && styleInPat(p, regex, k, x) ==> k in sps && (exists jp int :: 0 <= jp && jp < len(sps[k]) && sps[k][jp] == x))
 //@   loop 2 "for _, dec := range decs"
 //@     invariant[C10] len(prefixes) == 15 && prefixes[0] == "-webkit-" && prefixes[1] == "-moz-" && prefixes[2] == "-ms-" && prefixes[3] == "-o-" && prefixes[4] == "mso-" && prefixes[5] == "-xv-" && prefixes[6] == "-atsc-" && prefixes[7] == "-wap-" && prefixes[8] == "-khtml-" && prefixes[9] == "prince-" && prefixes[10] == "-ah-" && prefixes[11] == "-hp-" && prefixes[12] == "-ro-" && prefixes[13] == "-rim-" && prefixes[14] == "-tc-"
 //@     invariant[C10] forall j int :: 0 <= j && j < len(clean) ==> declStrOK(p, elementName, clean[j])
@@ -199,6 +204,7 @@ package bluemonday
 //@     invariant[C10] rangeindex < len(spl) && (forall j int :: 0 <= j && j < len(spl) ==> styleRuleGlob(p, tempProperty, spl[j]))
 
 //@ func (*bluemonday.Policy).sanitizeAttrs
+//@   closed
 //@   reveal[C14] wfRegex
 //@   requires wfp(p) && p.initialized
 //@   requires[C02] apsFor(p, elementName, aps)
@@ -356,6 +362,7 @@ package bluemonday
 //@     invariant[C03] p.requireParseableURLs ==> urlsOK(p, elementName, cleanAttrs)
 
 //@ func (*bluemonday.Policy).validURL
+//@   closed
 //@   reveal[C14] wfRegex, wfURLPols
 //@   requires wfp(p) && p.initialized
 //@   modifies nothing
